@@ -696,3 +696,62 @@ func (c *Ctx) FiniteTable(f *ssa.Function, param int, dom []int64) (map[int64]CV
 	}
 	return res, prob
 }
+
+// ConstCond decides a branch condition by constant propagation from the
+// designated key values alone (no phi environment): returns the index of the
+// successor taken.
+func (c *Ctx) ConstCond(ifi *ssa.If, key func(v ssa.Value) (CVal, bool)) (int, bool) {
+	var eval func(v ssa.Value, d int) CVal
+	eval = func(v ssa.Value, d int) CVal {
+		if d > 12 {
+			return CVal{}
+		}
+		if key != nil {
+			if cv, ok := key(v); ok {
+				return cv
+			}
+		}
+		switch x := v.(type) {
+		case *ssa.Const:
+			if x.Value == nil {
+				return CVal{}
+			}
+			switch x.Value.Kind() {
+			case constant.Int:
+				if i, ok := constant.Int64Val(x.Value); ok {
+					return CVal{Kind: CInt, I: i}
+				}
+			case constant.Bool:
+				return CVal{Kind: CBool, B: constant.BoolVal(x.Value)}
+			case constant.String:
+				return CVal{Kind: CString, S: constant.StringVal(x.Value)}
+			}
+		case *ssa.Convert:
+			cv := eval(x.X, d+1)
+			if cv.Kind == CInt {
+				cv.I = wrapInt(cv.I, x.Type())
+			}
+			return cv
+		case *ssa.ChangeType:
+			return eval(x.X, d+1)
+		case *ssa.UnOp:
+			if x.Op == token.NOT {
+				cv := eval(x.X, d+1)
+				if cv.Kind == CBool {
+					return CVal{Kind: CBool, B: !cv.B}
+				}
+			}
+		case *ssa.BinOp:
+			return binop(x.Op, eval(x.X, d+1), eval(x.Y, d+1), x.Type())
+		}
+		return CVal{}
+	}
+	cv := eval(ifi.Cond, 0)
+	if cv.Kind != CBool {
+		return 0, false
+	}
+	if cv.B {
+		return 0, true
+	}
+	return 1, true
+}
